@@ -32,8 +32,8 @@ def run_property(pid, tier, write=True, root=None):
     except ModuleNotFoundError:
         analysis_error(pid, "no check registered for this property")
         return 2, rep
-    forb = [(m.relpath, ln, what) for m in prog.modules.values() for ln, what in m.forbidden
-            if m.name not in ("sempler.plot",)]
+    from . import core as _core
+    del _core.ALL_INTERPS[:]
     try:
         mod.run(prog, rep, tier)
     except Inconclusive as e:
@@ -70,6 +70,19 @@ def run_property(pid, tier, write=True, root=None):
                 print("  NOTE " + note)
         except Inconclusive as e:
             rep.unk("SELFTEST", {"file": "-", "line": 0, "function": "-", "construct": "catalogue"}, "self-validation could not run: %s" % e.why)
+    # unmodelled constructs matter only where the check looked: inside the functions it analysed, or at module level of a
+    # module one of them lives in (star imports, decorated definitions it resolved names through)
+    visited = set()
+    for it in _core.ALL_INTERPS:
+        visited |= set(it.visited_funcs)
+    vmods = {q.rsplit(".", 2)[0] if q.rsplit(".", 1)[0] not in prog.modules else q.rsplit(".", 1)[0] for q in visited}
+    forb = []
+    for m in prog.modules.values():
+        if m.name in ("sempler.plot",):
+            continue
+        for ln, what, owner in m.forbidden_in:
+            if (owner is not None and owner in visited) or (owner is None and m.name in vmods and what == "star import"):
+                forb.append((m.relpath, ln, what))
     for rel, ln, what in forb:
         rep.unk("DYNAMIC-FEATURE", {"file": rel, "line": ln, "function": "-", "construct": what},
                 "construct outside the modelled Python subset")
